@@ -1233,17 +1233,22 @@ class Interval(DataType):
 
     type: pd.IntervalDtype = dataclasses.field(default=None, init=False)  # type: ignore[assignment]  # noqa
     subtype: Union[str, np.dtype]
+    closed: Optional[str] = None
+    """Whether the intervals are closed on the left, right, both or neither
+    side. ``None`` is the pandas default."""
 
     def __post_init__(self):
         object.__setattr__(
-            self, "type", pd.IntervalDtype(subtype=self.subtype)
+            self,
+            "type",
+            pd.IntervalDtype(subtype=self.subtype, closed=self.closed),
         )
 
     @classmethod
     def from_parametrized_dtype(cls, pd_dtype: pd.IntervalDtype):
         """Convert a :class:`pandas.IntervalDtype` to
         a Pandera :class:`pandera.engines.pandas_engine.Interval`."""
-        return cls(subtype=pd_dtype.subtype)  # type: ignore
+        return cls(subtype=pd_dtype.subtype, closed=pd_dtype.closed)  # type: ignore
 
 
 ###############################################################################
